@@ -1395,4 +1395,84 @@ theorem runState_perm {nG n : Nat} {ps ps' : List Pair} {t : List Int → Nat} {
   cases h'
   exact hs
 
+/-! ### the desperate phase takes every marker of a desperate pair -/
+
+theorem chosen_subset_chooseIfNew (st : St) (g x : Nat) (h : x ∈ st.chosen) :
+    x ∈ (chooseIfNew st g).chosen := by
+  unfold chooseIfNew
+  split
+  · exact h
+  · simp [h]
+
+theorem mem_chooseIfNew (st : St) (g : Nat) : g ∈ (chooseIfNew st g).chosen := by
+  unfold chooseIfNew
+  split
+  · rename_i hc; simpa using hc
+  · simp
+
+theorem chosen_subset_foldl : ∀ (gs : List Nat) (st : St) (x : Nat), x ∈ st.chosen →
+    x ∈ (gs.foldl chooseIfNew st).chosen := by
+  intro gs
+  induction gs with
+  | nil => intro st x h; exact h
+  | cons g gs ih => intro st x h; exact ih _ x (chosen_subset_chooseIfNew st g x h)
+
+theorem mem_foldl_chooseIfNew : ∀ (gs : List Nat) (st : St) (x : Nat), x ∈ gs →
+    x ∈ (gs.foldl chooseIfNew st).chosen := by
+  intro gs
+  induction gs with
+  | nil => intro st x h; cases h
+  | cons g gs ih =>
+    intro st x h
+    rcases List.mem_cons.mp h with rfl | h
+    · exact chosen_subset_foldl gs _ x (mem_chooseIfNew st x)
+    · exact ih _ x h
+
+theorem preState_takes_desperate {n nG : Nat} {pairs : List Pair} {st : St}
+    (hp : ∀ p ∈ pairs, PairWF nG p) (h : preState nG pairs n = .ok st) :
+    ∀ p ∈ pairs, 0 < p.down.length + p.up.length → p.down.length + p.up.length ≤ n →
+      ∀ g, g ∈ p.up ∨ g ∈ p.down → g ∈ st.chosen := by
+  intro p hpm h0 hn g hg
+  have hu : Inv n nG pairs (updateBeenFilled n (initState nG pairs)) := (Inv.init hp).update
+  unfold preState at h
+  rw [desperateSlots_eq_foldl _ _ hu.wf] at h
+  simp only [Except.ok.injEq] at h
+  subst h
+  apply mem_foldl_chooseIfNew
+  have hpm' := hpm
+  rw [← hu.shape] at hpm'
+  obtain ⟨s, hs, rfl⟩ := List.mem_map.mp hpm'
+  simp only [desperateList, List.mem_flatMap, List.mem_filter]
+  refine ⟨s, ⟨hs, ?_⟩, ?_⟩
+  · unfold Slot.desperate Slot.censusDown Slot.censusUp
+    rw [Bool.and_eq_true, decide_eq_true_eq, decide_eq_true_eq]
+    exact ⟨h0, hn⟩
+  · simp only [Slot.validGenes, List.mem_filter, List.mem_range, List.contains_eq_mem,
+      Bool.or_eq_true, decide_eq_true_eq]
+    have hw := hu.wf s hs
+    refine ⟨?_, hg⟩
+    rcases hg with hg | hg
+    · exact hw.upLt g hg
+    · exact hw.downLt g hg
+
+/-- every pick of the main loop is greedy: the gene has the largest number of
+unfilled slots among the genes not yet chosen -/
+theorem pick_greedy {n nG : Nat} {pairs : List Pair} {st : St} {m : Int} {g : Nat}
+    (h : Inv n nG pairs st) (hm : maxUtil st.util = some m) (hpos : ¬ m ≤ 0)
+    (hl : legalPick st.util g = true) :
+    g ∉ st.chosen ∧ 0 < specUtil st.slots g ∧
+      ∀ g', g' < nG → g' ∉ st.chosen → specUtil st.slots g' ≤ specUtil st.slots g := by
+  obtain ⟨hlt, hnc, _⟩ := pick_unchosen h hm hpos hl
+  obtain ⟨ug, hug, hall⟩ := legalPick_spec hl
+  have hu := h.util g hlt hnc
+  rw [hug] at hu
+  simp only [Option.some.injEq] at hu
+  subst hu
+  have hmem := (maxUtil_spec hm).1
+  have := hall m hmem
+  refine ⟨hnc, by omega, ?_⟩
+  intro g' hg' hnc'
+  have hu' := h.util g' hg' hnc'
+  exact hall _ (List.mem_of_getElem? hu')
+
 end CTM.Selection
